@@ -144,7 +144,12 @@ class State(object):
         return v
 
     def assume(self, f):
-        self.pc.append(f)
+        # conjunctions are kept as separate facts (feasibility queries drop some kinds of facts individually)
+        if z3.is_expr(f) and z3.is_and(f):
+            for c in f.children():
+                self.assume(c)
+        else:
+            self.pc.append(f)
 
     def settype(self, v, pycls):
         if pycls is not None and z3.is_expr(v):
@@ -207,7 +212,30 @@ class Executor(object):
         s.add(*solve.base_facts())
         # quantified facts are left out of feasibility queries: with them z3 answers `unknown` instead of
         # `sat`; dropping hypotheses only keeps more paths (sound), the obligations see the full context
-        pc = [f for f in st.pc if not z3.is_quantifier(f)]
+        pc = [f for f in st.pc if not z3.is_quantifier(f) and not solve.heavy_strings(f)]
+        gl = [g for g in guards if z3.is_expr(g)]
+        if gl and len(pc) > 25:
+            # cone of influence: only facts connected (through shared symbols) to the guards can decide them, the
+            # path condition being satisfiable on its own
+            syms = set()
+            for g in gl:
+                syms |= solve._symbols(g)
+            rest = [(f, solve._symbols(f)) for f in pc]
+            picked = []
+            changed = True
+            while changed:
+                changed = False
+                keep = []
+                for f, fs in rest:
+                    if fs & syms:
+                        picked.append(f)
+                        if not fs <= syms:
+                            syms |= fs
+                            changed = True
+                    else:
+                        keep.append((f, fs))
+                rest = keep
+            pc = picked
         s.add(*pc)
         s.add(*solve.wf_ties(pc + [g for g in guards if z3.is_expr(g)]))
         return s
@@ -848,6 +876,13 @@ class Executor(object):
                 return self.construct(st, p, args, kwargs, text)
             return self.call_function(st, p, list(args), kwargs, text)
         if z3.is_expr(f):
+            if not args and not kwargs and not self.feasible(st, z3.Not(V.is_type(f))):
+                # type(x)() for a builtin type value: the empty value of that type
+                tid = Val.tid(f)
+                alts = [(tid == -5, ("val", V.S(""))), (tid == -6, ("val", V.VBytes(z3.StringVal("")))),
+                        (tid == -7, ("val", V.empty_list())), (tid == -11, ("val", V.empty_dict())),
+                        (z3.Not(z3.Or(tid == -5, tid == -6, tid == -7, tid == -11)), ("unsupported", "call of a type value"))]
+                return self.apply_op(st, alts, "type()()")
             return self.call_symbolic(st, f, args, kwargs, text)
         raise Unsupported("call of %r" % (f,))
 
@@ -1238,9 +1273,83 @@ class Executor(object):
         raise Unsupported("del target")
 
     # --- try / with -------------------------------------------------------------------------------------
+    def merge_raising(self, base, states):
+        """join of several states that all enter the same catch-all handler: facts, locals, heap fields and ghost
+        values they share are kept, everything else is havocked, the exception is an arbitrary BaseException.
+        An over-approximation of each of them (sound); used to avoid running a long handler once per raising point."""
+        first = states[0]
+        m = first.copy()
+        common = None
+        for s_ in states:
+            ids = set(f.get_id() for f in s_.pc)
+            common = ids if common is None else (common & ids)
+        m.pc = [f for f in first.pc if f.get_id() in common]
+        hard_common = None
+        for s_ in states:
+            ids = set(f.get_id() for f in s_.hard)
+            hard_common = ids if hard_common is None else (hard_common & ids)
+        m.hard = [f for f in first.hard if f.get_id() in hard_common]
+        for name, v in list(first.locals.items()):
+            same = all(name in s_.locals and ((z3.is_expr(v) and z3.is_expr(s_.locals[name]) and v.eq(s_.locals[name]))
+                                              or v is s_.locals[name]) for s_ in states)
+            if not same:
+                if z3.is_expr(v):
+                    nv = V.fresh("J_" + name)
+                    m.locals[name] = nv
+                else:
+                    del m.locals[name]
+        for name in set().union(*[set(s_.locals) for s_ in states]) - set(first.locals):
+            m.locals.pop(name, None)
+        for f in set().union(*[set(s_.heap) for s_ in states]):
+            arrs = [s_.field_arr(f) for s_ in states]
+            if not all(a.eq(arrs[0]) for a in arrs):
+                hav = z3.Array("HJ!%s!%d" % (f, V._counter[0]), z3.IntSort(), z3.BoolSort() if f.startswith("?") else Val)
+                V._counter[0] += 1
+                if f.startswith("?"):
+                    m.heap[f] = hav
+                    continue
+                # objects that existed when the try block was entered keep their value: one obligation per joined path
+                base_arr = base.field_arr(f)
+                r = z3.Int("r!join")
+                m.heap[f] = z3.Lambda([r], z3.If(r < base.aptr, z3.Select(base_arr, r), z3.Select(hav, r)))
+                fr = z3.Int("FREE!rjoin")
+                for s_ in states:
+                    a = s_.field_arr(f)
+                    if a.eq(base_arr):
+                        continue
+                    goal = z3.Implies(z3.And(fr >= 0, fr < base.aptr), z3.Select(a, fr) == z3.Select(base_arr, fr))
+                    s_.obligations.append(Obligation("%s/join-frame[%s]" % (self.env.fn.key, f), s_.hyps(), goal, s_.sig,
+                                                     "join-frame", f, self.env.contract.props if self.env.contract else ()))
+        for g in set().union(*[set(s_.ghost) for s_ in states]):
+            vals_ = [self.env.trusted.ghost(s_, g) for s_ in states]
+            if not all(a.eq(vals_[0]) for a in vals_):
+                m.ghost[g] = V.fresh("GJ_" + g, self.env.trusted.ghost_sort(g))
+            else:
+                m.ghost[g] = vals_[0]
+        grown = V.fresh("join_allocs", z3.IntSort())
+        m.assume(grown >= 0)
+        m.aptr = z3.simplify(base.aptr + grown)
+        m.obligations = []
+        seen = set()
+        for s_ in states:
+            for ob in s_.obligations:
+                if id(ob) not in seen:
+                    seen.add(id(ob))
+                    m.obligations.append(ob)
+        m.sig = list(base.sig) + ["join:%d-raising-paths" % len(states)]
+        m.tags = {}
+        exc = self.env_exc(m, BaseException)
+        return m, exc
+
     def st_Try(self, st, stmt):
         results = []
-        for s, ctl in self.exec_block(st, stmt.body):
+        body_results = self.exec_block(st, stmt.body)
+        raising = [(s, ctl) for s, ctl in body_results if ctl[0] == RAISE]
+        catch_all = len(stmt.handlers) == 1 and stmt.handlers[0].type is None
+        if catch_all and len(raising) > 3:
+            m, exc = self.merge_raising(st, [s for s, _ in raising])
+            body_results = [(s, ctl) for s, ctl in body_results if ctl[0] != RAISE] + [(m, (RAISE, exc))]
+        for s, ctl in body_results:
             if ctl[0] == RAISE:
                 results.extend(self.handle(s, ctl[1], stmt.handlers))
             elif ctl[0] == NORMAL and stmt.orelse:
